@@ -219,6 +219,7 @@ WINDOWS = {
     "C19": ["drain-race", "drain-grow"],
     "C14": ["drain-grow", "refill-race", "timed-sendo-peer"],
     "C09": ["repoll-recv-peer", "timed-recv-peer", "repoll-send-peer", "drop-send-peer"],
+    "C12": ["clone-close", "clone-close-r", "clone-drop", "two-close"],
 }
 
 
@@ -545,6 +546,10 @@ PROPS = {
         props_files=["Kanal/Props/C12.lean"],
         leancheck=["Kanal.Props.C12"],
         families=fams_c12,
+        # concurrent clone / convert / drop / close with observers: every observed count is compared with the model (follow) and with the close monitor
+        conc=conc_prof("handles", {"clones": 5, "cloner": 5, "drops": 3, "dropr": 3, "convs": 2, "convr": 2, "clonesx": 2, "clonerx": 2, "scount": 5, "rcount": 5,
+                                   "isclosed": 3, "close": 2, "try": 2, "tryr": 2, "send": 1, "recv": 1},
+                       ["close", "disconnect", "mutex"], oracles=("ledger", "lifetime"), qn=300, tn=8000, caps=("1", "u"), ops=(2, 4)),
         relevant=rel_ops("scount", "rcount", "isclosed", "clone", "drop", "conv", "close"),
         trusted=["specgen/seqdrv text protocol", "counts are Nat in the model: the u32 wrap at 2^32 live handles is outside the model"],
         assumptions=COMMON_ASSUME + ["theorems are over the atomic-channel model (every call one atomic step, blocking calls register+complete); the interleaving-level lift is DESIGN §3.3"],
